@@ -25,13 +25,15 @@ TRUSTED_BASE = [
 # property -> configuration of the Verus route
 ALL_TYPES = pl.SCALAR_TYPES + pl.VECTOR_UNITS
 VERUS_PROPS = {
-    "C01": dict(units=ALL_TYPES),
+    "C01": dict(units=ALL_TYPES + ["Spec"]),
     "C02": dict(units=ALL_TYPES + ["Derivative"]),
-    "C03": dict(units=ALL_TYPES),
+    "C03": dict(units=ALL_TYPES + ["Spec"]),
+    "C04": dict(units=["Spec"]),
     "C07": dict(units=pl.VECTOR_UNITS + ["Derivative"]),
     "C08": dict(units=ALL_TYPES),
-    "C09": dict(units=ALL_TYPES),
+    "C09": dict(units=ALL_TYPES + ["Spec"]),
     "C10": dict(units=ALL_TYPES),
+    "C11": dict(units=["Dual", "Dual2", "DualVec", "Dual2Vec"]),
     "C15": dict(units=ALL_TYPES),
 }
 
@@ -62,11 +64,14 @@ def verus_route(pid, tier):
     cfg = VERUS_PROPS[pid]
     t0 = time.time()
     expanded, t_exp = pl.expand()
-    metas = pl.extract(expanded, cfg["units"])
+    code_units = [u for u in cfg["units"] if u != "Spec"]
+    metas = pl.extract(expanded, code_units) if code_units else {}
+    if "Spec" in cfg["units"]:
+        metas["Spec"] = dict(unit="Spec", functions=[], skipped=[], rewrite_rule_counts={})
     ufs = {}
     jobs = []
     for u in cfg["units"]:
-        uf = pl.assemble(u, metas[u])
+        uf = pl.assemble_spec() if u == "Spec" else pl.assemble(u, metas[u])
         ufs[u] = uf
         jobs.append(((u, "root"), uf.path, "root"))
         for k in uf.nl_modes + uf.ex_modes:
@@ -119,6 +124,8 @@ def required_anchors(pid, metas):
     lost = []
     for u, m in metas.items():
         names = {f["name"] for f in m["functions"]}
+        if u == "Spec":
+            continue
         if u == "Derivative":
             for n in ["mul", "div", "tr_mul", "add", "sub", "neg", "add_assign", "sub_assign", "mul_assign", "div_assign", "unwrap_generic"]:
                 if n not in names:
